@@ -117,6 +117,13 @@ Gen(e, st, n, D) ==
     [] e.t = "callall" ->
          LET g == Gen(e.e, st, n, D)
          IN [deps |-> g.deps, node |-> [k |-> "callall", e |-> g.node], n |-> g.n]
+    [] e.t = "obj" -> [deps |-> <<>>, node |-> Const([ty |-> "obj"]), n |-> n]
+    [] e.t = "field" ->
+         LET g == Gen(e.e, st, n, D)
+         IN [deps |-> g.deps, node |-> [k |-> "attr", e |-> g.node, n |-> e.n], n |-> g.n]
+    [] e.t = "mcall" ->        \* target and arguments are chained like the parts of a call
+         LET ag == GenSeq(<<e.e>> \o e.args, st, n, D)
+         IN [deps |-> ag.deps, node |-> [k |-> "mcall", e |-> ag.nodes[1], n |-> e.n, args |-> Tail(ag.nodes)], n |-> ag.n]
     [] e.t = "letfn" ->
          LET k == Len(e.fs)
              names == [i \in 1..k |-> Nm(e.fs[i].n, n + i)]
@@ -160,7 +167,9 @@ Units(e) == IF e.t = "do" THEN (IF e.xs = <<>> THEN <<>> ELSE Units(e.xs[1]) \o 
 RECURSIVE DupParams(_), DupParamsSeq(_)
 DupParamsSeq(xs) == \E i \in 1..Len(xs) : DupParams(xs[i])
 DupParams(e) ==
-  CASE e.t \in {"c", "l", "b", "g", "mkexc"} -> FALSE
+  CASE e.t \in {"c", "l", "b", "g", "mkexc", "obj"} -> FALSE
+    [] e.t = "field" -> DupParams(e.e)
+    [] e.t = "mcall" -> DupParams(e.e) \/ DupParamsSeq(e.args)
     [] e.t = "if" -> DupParams(e.a) \/ DupParams(e.b) \/ DupParams(e.c)
     [] e.t = "do" -> DupParamsSeq(e.xs)
     [] e.t \in {"let", "loop"} -> (\E i \in 1..Len(e.bs) : DupParams(e.bs[i].e)) \/ DupParamsSeq(e.xs)
